@@ -71,7 +71,9 @@ func opFuzz(f []string) string {
 	var o Obs
 	fs, err := fileseq.NewFrameSet(in)
 	o.Add("fsok", showBool(err == nil))
-	o.Add("isfr", showBool(fileseq.IsFrameRange(in)))
+	isfr := fileseq.IsFrameRange(in)
+	o.Add("isfr", showBool(isfr))
+	o.Add("agree", showBool((err == nil) == isfr))
 	if err == nil && fs.Len() <= 5000 {
 		_ = fs.Frames()
 		_ = fs.Normalize()
